@@ -687,6 +687,41 @@ func runCtor(c Case) {
 			g = "garbage-padding,"
 		}
 		failCase("ctor/NewBitStorage/"+k+"/"+g+shape(c.B, c.N, at), c.N, c, d)
+		return
+	}
+	if c.B == 0 || c.N == 0 || c.Garbage {
+		return
+	}
+	// The storage owns its values: what the caller does with the slice it supplied, and what another storage built
+	// from the same slice does, is not a Set or Swap on this storage.
+	mine := refpal.Pack(c.B, model)
+	orig := append([]uint64(nil), mine...)
+	var a, b2 *level.BitStorage
+	if _, _, p := engine.Guard(func() { a = level.NewBitStorage(c.B, c.N, mine); b2 = level.NewBitStorage(c.B, c.N, mine) }); p {
+		return
+	}
+	for i := range mine {
+		mine[i] = ^mine[i]
+	}
+	if k, d, at := compareAll(a, c.B, model, true, sc); k != "" {
+		failCase("ctor/NewBitStorage/storage-follows-the-callers-slice/"+k+"/"+shape(c.B, c.N, at), c.N, c, "after the caller overwrote the slice it had passed to the constructor: "+d)
+		return
+	}
+	copy(mine, orig)
+	mask := uint64(1)<<uint(c.B) - 1
+	nv := (model[0] + 1) & mask
+	if _, _, p := engine.Guard(func() { a.Set(0, int(nv)) }); p {
+		return
+	}
+	if k, d, at := compareAll(b2, c.B, model, true, sc); k != "" {
+		failCase("ctor/NewBitStorage/two-storages-share-one-array/"+k+"/"+shape(c.B, c.N, at), c.N, c, "after Set(0) on ANOTHER storage built from the same raw slice: "+d)
+		return
+	}
+	for i := range mine {
+		if mine[i] != orig[i] {
+			failCase("ctor/NewBitStorage/set-writes-into-the-callers-slice/"+shape(c.B, c.N, 0), c.N, c, fmt.Sprintf("Set(0,%d) on the storage changed long %d of the slice the caller had passed to the constructor", nv, i))
+			return
+		}
 	}
 }
 
